@@ -3,6 +3,7 @@ package c07
 import (
 	"encoding/json"
 	"fmt"
+	"math"
 	"runtime"
 	"sort"
 	"strings"
@@ -43,7 +44,7 @@ func (c config) String() string {
 func genConfig(t *rapid.T, allowPlain bool) config {
 	c := config{
 		C:        rapid.SampledFrom([]int{0, 1, 1, 2, 3}).Draw(t, "C"),
-		B:        rapid.SampledFrom([]int{0, 1, 2, 5, 50}).Draw(t, "B"),
+		B:        rapid.SampledFrom([]int{0, 1, 2, 5, 50, math.MaxInt}).Draw(t, "B"), // MaxInt: an "unbounded" buffer
 		LoaderUs: rapid.SampledFrom([]int{10, 200, 2000}).Draw(t, "loaderUs"),
 	}
 	c.NodePool = rapid.SampledFrom([]int{0, 1, 3, 100}).Draw(t, "nodePool")
@@ -83,7 +84,11 @@ func newQueue(cfg config, plan vlib.Plan) *queue {
 		freeUs = cfg.LoaderUs
 	}
 	if cfg.ViaSetter {
-		q.b = fpgo.NewBufferedChannelQueue[int](cfg.C, cfg.B+7, 55).
+		first := cfg.B + 7
+		if cfg.B > math.MaxInt-7 {
+			first = cfg.B - 7
+		}
+		q.b = fpgo.NewBufferedChannelQueue[int](cfg.C, first, 55).
 			SetBufferSizeMaximum(cfg.B).
 			SetNodeHookPoolSize(cfg.NodePool)
 	} else {
@@ -153,6 +158,9 @@ func (q *queue) Count() int {
 func (q *queue) capacity() int {
 	if q.cfg.Plain {
 		return q.cfg.C
+	}
+	if q.cfg.B > math.MaxInt-q.cfg.C {
+		return math.MaxInt
 	}
 	return q.cfg.C + q.cfg.B
 }
